@@ -22,7 +22,7 @@ SPECS["C01"] = {
         {"name": "charset", "pkg": "charset", "harnesses": ["HC01Charset"], "quick_args": fix(maxlen=3), "thorough_args": fix(maxlen=4),
          "quick_shards": 8, "thorough_shards": 16},
         {"name": "sequence", "pkg": "mimetype", "harnesses": ["HC05Seq"], "quick_args": fix(maxlen=2), "thorough_args": fix(maxlen=3), "quick_shards": 32, "thorough_shards": 64},
-        {"name": "data", "pkg": "mimetype", "harnesses": ["HC01Data"], "args": ["-max-instr", "30000000"], "quick_args": fix(dataTier=0), "thorough_args": fix(dataTier=1), "quick_shards": 48, "thorough_shards": 64},
+        {"name": "data", "pkg": "mimetype", "harnesses": ["HC01Data"], "args": ["-max-instr", "30000000"], "quick_args": fix(dataTier=0, dataC02=0), "thorough_args": fix(dataTier=1, dataC02=0), "quick_shards": 48, "thorough_shards": 64},
     ],
     "must_reach": ["assert:data-reader-agrees-with-bytes", "assert:e2e-no-binary-byte-implies-classified", "assert:second-detection-ok", "end"],
     "bounds": {"quick": {"non_looping_detectors": "header lengths 0..64 and all lengths within 4 bytes of every length guard up to 4196, all byte values, all uint32 limits",
@@ -43,7 +43,7 @@ SPECS["C07"] = {
          "quick_shards": 16, "thorough_shards": 32},
         {"name": "sequence", "pkg": "mimetype", "harnesses": ["HC05Seq"], "quick_args": fix(maxlen=2), "thorough_args": fix(maxlen=3), "quick_shards": 32, "thorough_shards": 64},
         {"name": "entry", "pkg": "mimetype", "harnesses": ["HC05Reader"], "quick_args": fix(maxlen=3), "thorough_args": fix(maxlen=4), "quick_shards": 16, "thorough_shards": 32},
-        {"name": "data", "pkg": "mimetype", "harnesses": ["HC01Data"], "args": ["-max-instr", "30000000"], "quick_args": fix(dataTier=0), "thorough_args": fix(dataTier=1), "quick_shards": 48, "thorough_shards": 64},
+        {"name": "data", "pkg": "mimetype", "harnesses": ["HC01Data"], "args": ["-max-instr", "30000000"], "quick_args": fix(dataTier=0, dataC02=0), "thorough_args": fix(dataTier=1, dataC02=0), "quick_shards": 48, "thorough_shards": 64},
     ],
     "must_reach": ["assert:e2e-text-implies-bom-or-no-binary-byte", "assert:e2e-no-binary-byte-implies-classified", "assert:detect-slices-to-limit", "assert:second-detection-header-within-limit", "end", "assert:text-iff-bom-or-no-binary-byte"],
     "bounds": {"quick": {"header_length": "0..100, all byte values, all uint32 limits"}, "thorough": {"header_length": "0..160"}},
@@ -306,7 +306,7 @@ SPECS["C02"] = {
         {"name": "walk", "pkg": "mimetype", "harnesses": ["HC03Walk"], "quick_args": fix(tier=0, extends=0), "thorough_args": fix(tier=0, extends=0), "quick_shards": 16, "thorough_shards": 16},
         {"name": "errors", "pkg": "mimetype", "harnesses": ["HC05Reader", "HC05File"], "quick_args": fix(maxlen=2), "thorough_args": fix(maxlen=3), "quick_shards": 16, "thorough_shards": 32},
         {"name": "onresult", "pkg": "mimetype", "harnesses": ["HC14OnResult"], "quick_shards": 8, "thorough_shards": 8},
-        {"name": "data", "pkg": "mimetype", "harnesses": ["HC01Data"], "args": ["-max-instr", "30000000"], "quick_args": fix(dataTier=0), "thorough_args": fix(dataTier=1), "quick_shards": 48, "thorough_shards": 64},
+        {"name": "data", "pkg": "mimetype", "harnesses": ["HC01Data"], "args": ["-max-instr", "30000000"], "quick_args": fix(dataTier=0, dataC02=1), "thorough_args": fix(dataTier=1, dataC02=1), "quick_shards": 48, "thorough_shards": 64},
     ],
     "must_reach": ["assert:data:string-parses", "assert:data:only-charset-parameter", "assert:data:rooted", "assert:onresult:ancestors-carry-no-parameters", "assert:walk:ancestor-bare", "assert:error-yields-errMIME", "assert:errMIME-is-bare-root", "end", "assert:format:string-parses", "assert:format:registered-type", "assert:format:only-charset-parameter", "assert:registered-type-is-bare-media-type", "assert:parameter-only-on-text-types", "assert:chain-ends-at-octet-stream"],
     "bounds": {"quick": {"label": "0 and 1 arbitrary bytes in 5 carriers", "data": "results of Detect on the repository's 215 test headers with symbolic perturbations (HC01Data)"}, "thorough": {"label": "0 and 2 arbitrary bytes"}},
